@@ -40,6 +40,10 @@ func (b Bool) Bool() bool {
 type Number float64
 
 func (n Number) String() string {
+	if n == 0 {
+		return "0"
+	}
+
 	if math.IsInf(float64(n), 1) {
 		return "Infinity"
 	}
